@@ -45,6 +45,7 @@ from static_frame.core.node_transpose import InterfaceTranspose
 
 from static_frame.core.type_blocks import TypeBlocks
 
+from static_frame.core.util import CACHE_UPDATE_LOCK
 from static_frame.core.util import DEFAULT_SORT_KIND
 from static_frame.core.util import DepthLevelSpecifier
 from static_frame.core.util import DtypeSpecifier
@@ -690,8 +691,10 @@ class IndexHierarchy(IndexBase):
     #---------------------------------------------------------------------------
 
     def _update_array_cache(self) -> None:
-        self._blocks = self._levels.to_type_blocks()
-        self._recache = False
+        with CACHE_UPDATE_LOCK:
+            if self._recache: # else another thread already updated
+                self._blocks = self._levels.to_type_blocks()
+                self._recache = False
 
     #---------------------------------------------------------------------------
 
